@@ -126,9 +126,34 @@ fn make<'a>(s: &'a Spec) -> AnyIt<'a> {
 /// Err(message) = some iterator of the history produced something else than the model's items
 fn run_session(c: &Session) -> Result<(usize, usize), String> {
     const SLOTS: usize = 4;
-    let want: Vec<Vec<Item>> = c.specs.iter().map(expected).collect();
-    let wmers: Vec<Vec<u64>> = c.specs.iter().map(|s| match s { Spec::KMin { seq, w, .. } => model::canonical_stream(&seq.0, *w), _ => Vec::new() }).collect();
-    let mut listed: Vec<Vec<u64>> = (0..SLOTS).map(|_| Vec::new()).collect();
+    let mut want: Vec<Vec<Item>> = c.specs.iter().map(expected).collect();
+    // the k-mer reporting iterator: the property fixes the runs and the concatenation of the lists. A fresh
+    // object pulled with next() only is judged against that; its items (lists included) are then what every
+    // other way of pulling the same iterator has to deliver (nth, skip, fold, last ... are defined by the
+    // Iterator trait as repeated next())
+    for (sp, s) in c.specs.iter().enumerate() {
+        if let Spec::KMin { seq, w, .. } = s {
+            let mut it = make(s);
+            let mut full: Vec<Item> = Vec::new();
+            while let Some(x) = it.next_item() {
+                full.push(x);
+                if full.len() > seq.0.len() + 2 {
+                    return Err(format!("the iterator built from {} yields more items than the input has bytes", crate::util::trunc(&format!("{:?}", s), 160)));
+                }
+            }
+            let heads: Vec<Item> = full.iter().map(|x| x[..3.min(x.len())].to_vec()).collect();
+            if heads != want[sp] {
+                let p = heads.iter().zip(want[sp].iter()).position(|(a, b)| a != b).unwrap_or(heads.len().min(want[sp].len()));
+                return Err(format!("a fresh iterator built from {} pulled with next(): run {} is {:?}, the model has {:?} ({} runs vs {})", crate::util::trunc(&format!("{:?}", s), 160), p, heads.get(p), want[sp].get(p), heads.len(), want[sp].len()));
+            }
+            let cat: Vec<u64> = full.iter().flat_map(|x| x[3.min(x.len())..].iter().copied()).collect();
+            let stream = model::canonical_stream(&seq.0, *w);
+            if cat != stream {
+                return Err(format!("a fresh iterator built from {} pulled with next(): the concatenated k-mer lists have {} items, the input has {} canonical w-mers (or they differ)", crate::util::trunc(&format!("{:?}", s), 160), cat.len(), stream.len()));
+            }
+            want[sp] = full;
+        }
+    }
     let mut slots: Vec<Option<(usize, usize, AnyIt<'_>)>> = (0..SLOTS).map(|_| None).collect();
     let (mut early_drops, mut interleaved) = (0usize, 0usize);
     for (i, op) in c.ops.iter().enumerate() {
@@ -144,16 +169,14 @@ fn run_session(c: &Session) -> Result<(usize, usize), String> {
                     }
                 }
                 slots[slot] = None; // drop first, then build: the order a `x = new()` assignment cannot give
-                listed[slot].clear();
                 slots[slot] = Some((spec, 0, make(&c.specs[spec])));
             }
             Op::Drain(slot, how, n) => {
                 let slot = *slot as usize % SLOTS;
                 let n = *n as usize % 7;
-                let is_kmin = |sp: usize| matches!(c.specs[sp], Spec::KMin { .. });
                 if let Some((sp, pos, mut it)) = slots[slot].take() {
                     let rest: Vec<Item> = want[sp][pos.min(want[sp].len())..].to_vec();
-                    let head = |x: &Item| if is_kmin(sp) { x[..3.min(x.len())].to_vec() } else { x.clone() };
+                    let head = |x: &Item| x.clone();
                     let fail = |what: String| Err(format!("operation {} ({:?}) on the iterator built from {} after {} items taken with next(): {}", i, op, crate::util::trunc(&format!("{:?}", c.specs[sp]), 160), pos, what));
                     match how % 8 {
                         0 => {
@@ -187,8 +210,8 @@ fn run_session(c: &Session) -> Result<(usize, usize), String> {
                             if got != rest.get(n).cloned() {
                                 return fail(format!("nth({}) = {:?}, the model has {:?}", n, got, rest.get(n)));
                             }
-                            // the iterator stays in its slot (the lists of the k-mer reporting iterator are no longer tracked)
-                            if !is_kmin(sp) && got.is_some() {
+                            // the iterator stays in its slot
+                            if got.is_some() {
                                 slots[slot] = Some((sp, pos + n + 1, it));
                             }
                         }
@@ -197,9 +220,7 @@ fn run_session(c: &Session) -> Result<(usize, usize), String> {
                             if got != n.min(rest.len()) {
                                 return fail(format!("by_ref().take({}).count() = {}, the model has {} items left", n, got, rest.len()));
                             }
-                            if !is_kmin(sp) {
-                                slots[slot] = Some((sp, pos + got, it));
-                            }
+                            slots[slot] = Some((sp, pos + got, it));
                         }
                     }
                 }
@@ -211,18 +232,7 @@ fn run_session(c: &Session) -> Result<(usize, usize), String> {
                 }
                 if let Some((sp, pos, it)) = &mut slots[slot] {
                     for _ in 0..*n {
-                        let mut got = it.next_item();
-                        if let (Spec::KMin { .. }, Some(g)) = (&c.specs[*sp], got.as_mut()) {
-                            listed[slot].extend(g.drain(3..));
-                            if !wmers[*sp].starts_with(&listed[slot]) {
-                                return Err(format!("operation {} ({:?}): after item {} the concatenated k-mer lists ({} items) are no prefix of the canonical w-mers of the input ({} items)", i, op, pos, listed[slot].len(), wmers[*sp].len()));
-                            }
-                        }
-                        if let (Spec::KMin { .. }, None) = (&c.specs[*sp], got.as_ref()) {
-                            if listed[slot] != wmers[*sp] {
-                                return Err(format!("operation {} ({:?}): the exhausted iterator listed {} w-mers, the input has {}", i, op, listed[slot].len(), wmers[*sp].len()));
-                            }
-                        }
+                        let got = it.next_item();
                         let exp = want[*sp].get(*pos);
                         if got.as_ref() != exp {
                             return Err(format!(
